@@ -112,6 +112,10 @@ NOTES = {
  'C17-14': 'first missed: the strip correspondence is repeated on trees whose computed attributes (py_val, full_name) have been read, hashed, printed and traversed before',
  'C01-14': 'first caught only through the tie: the same unary operator applied two to four times to operands that bind more loosely than their context (not not (a or b) and c, -(-(a add b)) mul c)',
  'C20-11': 'regressed to not reported when the probe pool grew (the draw no longer repeated a failing text); now every failing text is parsed twice / three times on one lexer, one parser, both',
+ 'C08-15': 'first missed: columns of other declared types (Uuid, Numeric, Enum, Interval, Text, BigInteger, Date / DateTime / Time) on Core and ORM, compiled for SQLite and PostgreSQL',
+ 'C11-15': 'first missed: a parameter name REPEATED in one call (s=1, s=2; p, q, p; three times) for every name of the call matrix: every written argument counts and keeps its place',
+ 'C12-16': 'first missed: literals whose value is falsy in Python (0, 0.0, empty string) in every argument position must give the SQL skeleton and parameter count a truthy literal gives',
+ 'C16-15': 'first missed: one visitor / transformer / dialect instance reused after 1, 30, 300+ traversals aborted by an exception from a handler must handle legal trees as a fresh instance does',
  'C19-11': 'first caught only through the tie: the re-layout recognises punctuation by its TEXT, so a tree that re-types the comma token is judged by the same whitespace-before-comma variants',
  'C20-4': 'first missed: accumulation histories (40-120 repetitions of one input, nine kinds that leave a parenthesis open) and extreme single inputs added',
 }
@@ -123,12 +127,12 @@ def main():
     n = len(res); caught = sum(1 for rc, v in res.values() if rc == '1'); inp = sum(1 for rc, v in res.values() if rc == '1' and 'no-failing' not in v)
     out = ["### 0.5 Seeded changes and which checks catch them", "",
     "Every seeded change below compiles, leaves the pinned suite at 648 passed / 10 xfailed / 4 errors, and was confirmed in a scratch worktree (its own `demo.py` passes on HEAD and fails with the patch;",
-    "`harness/confirm_seed.sh`). They were written in fourteen rounds by fresh sub-agents that saw only the property text, a scratch worktree of /repo and (from round 2 on) one-line summaries of the",
+    "`harness/confirm_seed.sh`). They were written in fifteen rounds (the last one for eight properties only) by fresh sub-agents that saw only the property text, a scratch worktree of /repo and (from round 2 on) one-line summaries of the",
     "earlier seeds for the same property so as to differ in mechanism - nothing from /verif. `harness/seed_matrix.sh` applies each in an isolated scratch worktree, runs the quick check of its",
     f"property in a scratch copy of /verif and writes `seeded/RESULTS.tsv`: {caught} of {n} are reported, {inp} with a failing input. Where a change was first missed (or caught only through a broken",
     "tie), the generator or the judge was strengthened (last column, regenerated by `harness/mkseedtable.py`) - the properties and the pass criteria were not touched. First-time detection per round",
     "(own check, before any strengthening): rounds 1-2 (47 seeds): the first misses are the ones marked in the last column (C03-3, C08-3, C12-2, C12-3, C12-4); round 3 (11 seeds): 7 with a failing input,",
-    "1 through the tie only, 3 missed; round 4 (20 seeds): 8 with a failing input, 3 through the tie only, 9 missed; round 5 (20 seeds): 10 with a failing input, 2 through the tie only, 7 missed, 1 crashed the translator; round 6 (20 seeds): 11 with a failing input, 3 through the tie only, 6 missed; round 7 (20 seeds): 13 with a failing input, 4 through the tie only, 3 missed; round 8 (20 seeds): 12 with a failing input, 1 through the tie only, 7 missed; round 9 (20 seeds): 13 with a failing input, 7 missed; round 10 (20 seeds): 8 with a failing input, 5 through the tie only, 7 missed; round 11 (20 seeds): 11 with a failing input, 9 missed; round 12 (20 seeds): 5 with a failing input, 3 through the tie only, 12 missed; round 13 (20 seeds): 13 with a failing input, 2 through the tie only, 5 missed; round 14 (20 seeds): 13 with a failing input, 1 through the tie only, 6 missed - rounds 3 to 14 were asked to avoid every mechanism used before, and each miss named a",
+    "1 through the tie only, 3 missed; round 4 (20 seeds): 8 with a failing input, 3 through the tie only, 9 missed; round 5 (20 seeds): 10 with a failing input, 2 through the tie only, 7 missed, 1 crashed the translator; round 6 (20 seeds): 11 with a failing input, 3 through the tie only, 6 missed; round 7 (20 seeds): 13 with a failing input, 4 through the tie only, 3 missed; round 8 (20 seeds): 12 with a failing input, 1 through the tie only, 7 missed; round 9 (20 seeds): 13 with a failing input, 7 missed; round 10 (20 seeds): 8 with a failing input, 5 through the tie only, 7 missed; round 11 (20 seeds): 11 with a failing input, 9 missed; round 12 (20 seeds): 5 with a failing input, 3 through the tie only, 12 missed; round 13 (20 seeds): 13 with a failing input, 2 through the tie only, 5 missed; round 14 (20 seeds): 13 with a failing input, 1 through the tie only, 6 missed; round 15 (8 seeds, the properties with the most recent misses): 4 with a failing input, 4 missed - rounds 3 to 15 were asked to avoid every mechanism used before, and each miss named a",
     "blind spot of a GENERATOR or of a judge's scope (literal spellings, type-confusable contents, sequences on one instance, accumulation, an over-broad refusal rule, a schema feature), never of a theorem.", "",
     "| seed | file(s) | what it changes | caught by | note |", "|---|---|---|---|---|"]
     for d in sorted(glob.glob('/verif/seeded/*/')):
